@@ -107,6 +107,29 @@ def c08_triplet_delayed():
         return False, f"delayed TripletSTDP step raised AttributeError: {e}"
 
 
+def c09_homeostasis_target_carryover():
+    """C09: homeostatic plasticity moves each cell's parameter toward ITS OWN target rate."""
+    def cell():
+        conn = neural.LinearDense((1,), (1,), 1.0, synapse=neural.DeltaCurrent.partialconstructor(1.0))
+        neu = neural.LIF((1,), 1.0, rest_v=-60.0, reset_v=-65.0, thresh_v=-50.0, refrac_t=1.0, time_constant=20.0)
+        lay = neural.Serial(conn, neu)
+        conn.updater = conn.defaultupdater()
+        return lay
+    la, lb = cell(), cell()
+    tr = learn.LinearHomeostasis(1.0, 0.25, "weight")
+    tr.register_cell("c0", la.cell)
+    tr.register_cell("c1", lb.cell, target=0.75)
+    for lay in (la, lb):
+        lay.neuron.voltage = torch.full_like(lay.neuron.voltage, -40.0)   # spike now (rate 1.0 after one step)
+        lay(torch.zeros(1, 1).bool())
+    tr()
+    p1, n1 = lb.connection.updater.weight.pos, lb.connection.updater.weight.neg
+    # rate 1.0: c1's own target 0.75 gives k = (0.75-1)/0.75 = -1/3; the leaked target 0.25 gives k = -3
+    mag = float((p1 if p1 is not None else torch.zeros(1)).abs().sum() + (n1 if n1 is not None else torch.zeros(1)).abs().sum())
+    ok = abs(mag - 1.0 / 3.0) < 1e-9
+    return ok, f"cell c1 (own target 0.75, rate 1.0): |k| = {mag:.6f}, documented 0.333333 (3.0 means the first cell's target 0.25 was used)"
+
+
 def c10_updater_reduction():
     """C10: a custom reduction passed at construction is the one used."""
     conn = neural.LinearDense((2,), (2,), 1.0, synapse=neural.DeltaCurrent.partialconstructor(1.0))
